@@ -25,7 +25,7 @@
      just <L|R> a <width> <N|t<text>> <a<atts|->|E:kind>   (fill result text and shared_atts are data)
      wslice a int <i> | wslice a slice <x|N> <y|N> | wsplit a <columns> <fmt>~<0|1>…   (yielded lines are data)
      deleg a <E:kind|N|L<text>~<text>…> <a<atts|->|E:kind>
-     str a | len a | s a | width a | colorstr a <k> | setitem a | attsmut a <k> <method name> <atts after|-> -/
+     str a | len a | s a | width a | colorstr a <k> | setitem a | attsmut a <k> <method name> -/
 import Curtsies.Wire
 import Curtsies.Model.Heap
 import Curtsies.Driver.Width
@@ -117,9 +117,9 @@ def decOp (pool : List Nat) (args : List String) : Option Op :=
   | ["eq", a, other] => do pure (.eq (← p a) (← decArg pool other))
   | ["hash", a] => do pure (.hash (← p a))
   | ["setitem", a] => do pure (.setitem (← p a))
-  | ["attsmut", a, k, name, after] => do
+  | ["attsmut", a, k, name] => do
     -- only the regenerated mutator names are operations of the model
-    if Generated.dictMutators.contains name then pure (.attsMutate (← p a) (← k.toNat?) name (← decAttsD after))
+    if Generated.dictMutators.contains name then pure (.attsMutate (← p a) (← k.toNat?) name)
     else none
   | _ => none
 
